@@ -1,6 +1,6 @@
 #!/bin/sh
 # wtverify.sh PID n demo  — verify a seeded change inside the agent's own worktree
-PID=$1; N=$2; DEMO=$3; WT=/tmp/wt/$PID
+PID=$1; N=$2; DEMO=$3; WT=/tmp/wt/${4:-$PID}
 cd $WT || exit 9
 git checkout -q -- . ; make clean >/dev/null 2>&1
 run() { case "$DEMO" in *.sh) sh _seed/$DEMO >/tmp/wtv.out 2>&1;; *) make >/dev/null 2>&1; cc -I$WT/include _seed/$DEMO $WT/libeav.a -lidn2 -lpthread -o /tmp/wtv.demo 2>/tmp/wtv.out && /tmp/wtv.demo >>/tmp/wtv.out 2>&1;; esac; echo $?; }
